@@ -131,8 +131,10 @@ var kinds = map[string]kindDef{
 	"[0]uint8": {typ: reflect.TypeOf([0]byte{}), val: func(v string) any { return [0]byte{} }},
 	"[1]uint8": {typ: reflect.TypeOf([1]byte{}), val: func(v string) any { return pick(v, [1]byte{}, [1]byte{7}, [1]byte{7}) }},
 	"[4]uint8": {typ: reflect.TypeOf([4]byte{}), val: func(v string) any { return pick(v, [4]byte{}, [4]byte{104, 105, 33, 0}, [4]byte{1, 2, 3, 4}) }},
-	"BA4":      {typ: reflect.TypeOf(enctypes.BA4{}), val: func(v string) any { return pick(v, enctypes.BA4{}, enctypes.BA4{104, 105, 33, 0}, enctypes.BA4{1, 2, 3, 4}) }},
-	"BS":       {typ: reflect.TypeOf(enctypes.BS(nil)), val: func(v string) any { return pick(v, enctypes.BS(nil), enctypes.BS("hi!"), enctypes.BS{}) }},
+	"BA4": {typ: reflect.TypeOf(enctypes.BA4{}), val: func(v string) any {
+		return pick(v, enctypes.BA4{}, enctypes.BA4{104, 105, 33, 0}, enctypes.BA4{1, 2, 3, 4})
+	}},
+	"BS": {typ: reflect.TypeOf(enctypes.BS(nil)), val: func(v string) any { return pick(v, enctypes.BS(nil), enctypes.BS("hi!"), enctypes.BS{}) }},
 	"[][4]uint8": {typ: reflect.TypeOf([][4]byte(nil)), val: func(v string) any {
 		return pick(v, [][4]byte(nil), [][4]byte{{104, 105, 33, 0}, {}}, [][4]byte{})
 	}},
